@@ -526,6 +526,173 @@ def r12_7(ctx, counts: dict[str, int]) -> RuleResult:
     return res
 
 
+def r12_8(ctx, counts: dict[str, int]) -> RuleResult:
+    """the class tokeniser consumes an escaped backslash before any other escape"""
+    import re._parser as sre_parse  # type: ignore[import-not-found]
+    import re._constants as sre_c  # type: ignore[import-not-found]
+    model: Model = ctx.model
+    res = RuleResult(
+        'R12.8', 'CLASS-TOKENISER-ESCAPED-BACKSLASH',
+        'CharacterClass splits the text of a class with the regex _re_char_set into escapes and '
+        'literal runs. The regex scans from the left, so in `\\\\d` (an escaped backslash '
+        'followed by the letter d) it must consume the pair `\\\\` first; otherwise the second '
+        'backslash is paired with the letter and [\\\\d] matches digits, [\\\\s] white space, '
+        '[\\\\t] a TAB. Read from the regex AST (re._parser, data only): the alternation of '
+        '_re_char_set has a branch that is exactly two literal backslashes, placed before every '
+        'branch that starts with one backslash followed by a character set.')
+    cls = model.find_class('CharacterClass')
+    pat = None
+    for st in cls.node.body:
+        if isinstance(st, ast.Assign) and any(dotted(t) == '_re_char_set' for t in st.targets) \
+                and isinstance(st.value, ast.Call) and st.value.args:
+            try:
+                pat = ast.literal_eval(st.value.args[0])
+            except ValueError:
+                raise AnalysisError('CharacterClass._re_char_set is not a literal pattern')
+    if pat is None:
+        raise AnalysisError('CharacterClass._re_char_set vanished')
+    tree = sre_parse.parse(pat)
+    branches = None
+    prefixed = False       # sre factors a common leading backslash out of the alternation
+    stack = [tree]
+    while stack and branches is None:
+        cur = stack.pop()
+        items = list(cur)
+        for k, (op, av) in enumerate(items):
+            if op is sre_c.BRANCH:
+                branches = av[1]
+                prefixed = k > 0 and items[k - 1][0] is sre_c.LITERAL and items[k - 1][1] == 92
+                break
+            if op is sre_c.SUBPATTERN:
+                stack.append(av[3])
+    if branches is None:
+        raise AnalysisError('_re_char_set: alternation not located')
+
+    def is_bs(item) -> bool:
+        return item[0] is sre_c.LITERAL and item[1] == 92
+    if prefixed:
+        pair = [i for i, b in enumerate(branches) if len(b) == 1 and is_bs(b[0])]
+        single = [i for i, b in enumerate(branches) if len(b) >= 1 and not is_bs(b[0])]
+    else:
+        pair = [i for i, b in enumerate(branches) if len(b) == 2 and is_bs(b[0]) and is_bs(b[1])]
+        single = [i for i, b in enumerate(branches)
+                  if len(b) >= 2 and is_bs(b[0]) and not is_bs(b[1])]
+    counts['class_tokeniser_branches'] = len(branches)
+    ok = bool(pair) and all(pair[0] < i for i in single)
+    res.instances.append(f'_re_char_set: {len(branches)} branches, escaped-backslash branch at '
+                         f'{pair[:1] or None}, single-escape branches at {single}: {ok}')
+    if ok:
+        res.ok()
+    else:
+        res.fail(finding('R12.8', None, cls.node, 'escaped backslash not tokenised first',
+                         f'CharacterClass._re_char_set {pat!r} has no branch for the pair of '
+                         f'backslashes before its single-escape branches: in [\\\\d] the second '
+                         f'backslash is paired with `d` and the class matches digits instead of '
+                         f'a backslash and the letter d', module=cls.module))
+    if not single:
+        raise AnalysisError('_re_char_set: no single-escape branch located')
+    return res
+
+
+def r12_9(ctx, counts: dict[str, int]) -> RuleResult:
+    """analyze-string: the cursor into the input never moves backwards"""
+    from ..engine.dataflow import branch_facts
+    res = RuleResult(
+        'R12.9', 'ANALYZE-STRING-CURSOR-MONOTONE',
+        'fn:analyze-string partitions its input: the text it emits is a sequence of slices '
+        'S[c:x] of the input taken at a cursor c that is then moved to the end of what was '
+        'emitted. In the function bound to analyze-string (and its local helpers) every '
+        'assignment `c = e` to a cursor (a name used as the lower bound of a slice of the input) '
+        'inside a loop moves it forward: e is the end of a span (lo, hi) unpacked from '
+        '`.span(..)` with a branch fact that lo is not before c (`not lo < c`, `lo > c`, '
+        '`lo >= c`, `lo == c`), or the span is the whole match of a search that started at c. A '
+        'group captured in an earlier iteration of a repeated group lies before the cursor: '
+        "analyze-string('ba', '((a)|(b))+') emitted 'b', 'b', 'a'.")
+    funcs = {}
+    for rec in ctx.reg.all_records():
+        if rec.symbol == 'analyze-string':
+            ref = rec.method('evaluate')
+            if ref is not None and ref.func is not None and ref.origin != 'class':
+                funcs[ref.func] = True
+    if not funcs:
+        raise AnalysisError('the function bound to fn:analyze-string was not located')
+    n = 0
+    for top in sorted(funcs, key=lambda q: q.key):
+        scopes = [top] + [g for g in top.module.functions.values() if g.parent is top]
+        for f in scopes:
+            # the input: the name sliced with name bounds
+            slices = [x for x in walk_local(f.node) if isinstance(x, ast.Subscript)
+                      and isinstance(x.slice, ast.Slice) and isinstance(x.value, ast.Name)
+                      and isinstance(x.slice.lower, ast.Name)]
+            cursors = {x.slice.lower.id for x in slices}
+            if not cursors:
+                continue
+            pairs: dict[str, tuple[str, ast.Call]] = {}     # hi -> (lo, span call)
+            for x in walk_local(f.node):
+                if isinstance(x, ast.Assign) and len(x.targets) == 1 \
+                        and isinstance(x.targets[0], ast.Tuple) and len(x.targets[0].elts) == 2 \
+                        and all(isinstance(e, ast.Name) for e in x.targets[0].elts) \
+                        and isinstance(x.value, ast.Call) and isinstance(x.value.func, ast.Attribute) \
+                        and x.value.func.attr == 'span':
+                    lo, hi = (e.id for e in x.targets[0].elts)
+                    pairs[hi] = (lo, x.value)
+            searched: dict[str, str] = {}      # match variable -> start position name
+            for x in walk_local(f.node):
+                if isinstance(x, ast.Assign) and len(x.targets) == 1 \
+                        and isinstance(x.targets[0], ast.Name) and isinstance(x.value, ast.Call) \
+                        and isinstance(x.value.func, ast.Attribute) \
+                        and x.value.func.attr in ('search', 'match') and len(x.value.args) == 2 \
+                        and isinstance(x.value.args[1], ast.Name):
+                    searched[x.targets[0].id] = x.value.args[1].id
+            cfg = CFG(f.node)
+            facts = branch_facts(cfg)
+            loops = [lp for lp in walk_local(f.node) if isinstance(lp, (ast.For, ast.While))]
+            for nd in cfg.nodes:
+                a = nd.ast
+                if nd.kind != 'stmt' or not isinstance(a, ast.Assign) or len(a.targets) != 1 \
+                        or not isinstance(a.targets[0], ast.Name) or a.targets[0].id not in cursors:
+                    continue
+                if not any(y is a for lp in loops for y in ast.walk(lp)):
+                    continue
+                c = a.targets[0].id
+                n += 1
+                ok = False
+                why = ''
+                if isinstance(a.value, ast.Name) and a.value.id in pairs:
+                    lo, call = pairs[a.value.id]
+                    recv = dotted(call.func.value)
+                    if not call.args and searched.get(recv) == c:
+                        ok, why = True, f'end of the match of a search started at {c}'
+                    else:
+                        fs = facts[nd.id]
+                        for fa in fs:
+                            if fa in (f'-{lo} < {c}', f'+{lo} > {c}', f'+{lo} >= {c}',
+                                      f'+{lo} == {c}', f'-{c} > {lo}', f'+{c} <= {lo}',
+                                      f'+{c} < {lo}'):
+                                ok, why = True, f'fact {fa}'
+                if not ok and isinstance(a.value, ast.Name):
+                    e = a.value.id
+                    for fa in facts[nd.id]:
+                        if fa in (f'+{e} > {c}', f'+{e} >= {c}', f'-{e} < {c}', f'+{c} < {e}',
+                                  f'+{c} <= {e}', f'-{c} > {e}'):
+                            ok, why = True, f'fact {fa}'
+                res.instances.append(f'{f.key}: L{a.lineno} `{stmt_text(a)}` moves the cursor '
+                                     f'forward: {ok} ({why or "no fact relates it to the cursor"})')
+                if ok:
+                    res.ok()
+                else:
+                    res.fail(finding('R12.9', f, a, f'cursor {c} may move backwards',
+                                     f'`{stmt_text(a)}` moves the cursor `{c}` into the input to a '
+                                     f'position that is not established to be at or after it '
+                                     f'(a group captured in an earlier iteration of a repeated '
+                                     f'group starts before the cursor): the emitted pieces are '
+                                     f'then not a partition of the input'))
+    counts['cursor_assignments'] = n
+    if n < 2:
+        raise AnalysisError(f'analyze-string: cursor assignments located: {n} < 2')
+    return res
+
+
 def run(ctx) -> dict:
     counts: dict[str, int] = {}
     from .c13_unicode import r13_3
@@ -536,7 +703,8 @@ def run(ctx) -> dict:
     results = [r12_1(ctx, counts), r12_2(ctx, counts), r13_3(ctx, counts), r12_4(ctx, counts),
                r13_4(ctx, counts), r12_5(ctx, counts), r13_6(ctx, counts),
                r13_7(ctx, counts), r12_6(ctx, counts),
-               r12_7(ctx, counts), r13_9(ctx, counts)]
+               r12_7(ctx, counts), r13_9(ctx, counts), r12_8(ctx, counts),
+               r12_9(ctx, counts)]
     # process-wide state is written only by the reviewed inventory (no new caches)
     from .c19_global import r19_5 as _r19_5
     _state = _r19_5(ctx, counts, lambda f: f.module.name.startswith('elementpath.regex'), 2)
